@@ -108,17 +108,41 @@ class SequenceDataSource(types.Recoverable, Iterable[_T]):
     return self.iterate()
 
 
+class _PositionTracker(Iterator[_T]):
+  """Counts every position read, a read that fails takes its position too."""
+
+  def __init__(self, it: Iterable[_T], position: int):
+    self._it = iter(it)
+    self.position = position
+
+  def __next__(self) -> _T:
+    try:
+      result = next(self._it)
+    except StopIteration:
+      raise
+    except Exception:
+      self.position += 1
+      raise
+    self.position += 1
+    return result
+
+
 class SequenceIterator(types.Recoverable, Iterator[_T]):
   """A sharded data source for chainables."""
 
   config: SequenceDataSource
-  _index: int
 
   def __init__(self, config: SequenceDataSource):
-    self._index = config.start
     iter_ = iter_utils.iter_ignore_error if config.ignore_error else iter
-    self._it = iter_(config.data[config.start : config.end])
+    self._tracker = _PositionTracker(
+        config.data[config.start : config.end], config.start
+    )
+    self._it = iter_(self._tracker)
     self.config = config
+
+  @property
+  def _index(self) -> int:
+    return self._tracker.position
 
   def from_state(self, shard_state: ShardConfig) -> Self:
     return self.__class__(self.config.from_state(shard_state))
@@ -133,9 +157,7 @@ class SequenceIterator(types.Recoverable, Iterator[_T]):
 
   def __next__(self) -> _T:
     """Iterates the data source given a shard index."""
-    result = next(self._it)
-    self._index += 1
-    return result
+    return next(self._it)
 
   def __iter__(self) -> Self:
     """Iterates the data source given a shard index."""
